@@ -279,8 +279,51 @@ func C17(c *Ctx) {
 
 	c.noDropRules("C17-3")
 
-	r.Rule("C17-5", "util.GetDocCommentOn returns only `Doc` comment groups of the enclosing declaration nodes (never a trailing line comment), each under Doc != nil")
+	r.Rule("C17-5", "util.GetDocCommentOn returns only `Doc` comment groups of the enclosing declaration nodes (never a trailing line comment), each under a non-nil test of that same Doc link")
 	if fn := c.MustFunc("C17-5", "/pkg/util", "GetDocCommentOn"); fn != nil {
+		// isDocAddr: the address is &X.Doc of an ast node (possibly through a local pointer variable / φ)
+		var isDocAddr func(a ssa.Value, d int) bool
+		isDocAddr = func(a ssa.Value, d int) bool {
+			if d > 4 {
+				return false
+			}
+			switch x := a.(type) {
+			case *ssa.FieldAddr:
+				n := core.FieldName(x.X.Type(), x.Field)
+				return len(n) > 8 && n[:4] == "ast." && n[len(n)-4:] == ".Doc"
+			case *ssa.Phi:
+				for _, e := range x.Edges {
+					if !isDocAddr(e, d+1) {
+						return false
+					}
+				}
+				return len(x.Edges) > 0
+			case *ssa.UnOp: // load of a pointer variable
+				if al, ok := x.X.(*ssa.Alloc); ok && al.Referrers() != nil {
+					n := 0
+					for _, rf := range *al.Referrers() {
+						if st, ok := rf.(*ssa.Store); ok && st.Addr == al {
+							n++
+							if !isDocAddr(st.Val, d+1) {
+								return false
+							}
+						}
+					}
+					return n > 0
+				}
+			}
+			return false
+		}
+		addrOf := func(v ssa.Value) ssa.Value {
+			if u, ok := v.(*ssa.UnOp); ok {
+				// normalise "load of pointer variable" to the variable
+				if u2, ok := u.X.(*ssa.UnOp); ok {
+					return u2.X
+				}
+				return u.X
+			}
+			return nil
+		}
 		n := 0
 		for i, ret := range core.Returns(fn) {
 			t := c.O.Of(ret.Results[0])
@@ -288,12 +331,19 @@ func C17(c *Ctx) {
 				continue
 			}
 			n++
-			isDoc := t.Kind == "field" && len(t.Name) > 4 && t.Name[len(t.Name)-4:] == ".Doc" && len(t.Name) > 4 && t.Name[:4] == "ast."
+			v := ret.Results[0]
+			u, isLoad := v.(*ssa.UnOp)
+			okDoc := isLoad && isDocAddr(u.X, 0)
 			d := c.ReachOf(ret)
-			nonNil := c.M(false, isNilCmp(func(x *core.Term) bool { return x.String() == t.String() }))
-			r.Check("C17-5", sprintf("%s:return%d", FnKey(fn), i+1), c.InstrPos(ret), isDoc && d.Implies(nonNil), "the doc lookup may return something other than a non-nil Doc group: "+t.String())
+			nonNil := c.M(false, isNilCmp(func(x *core.Term) bool {
+				if x.String() == t.String() {
+					return true
+				}
+				return x.V != nil && addrOf(x.V) != nil && addrOf(x.V) == addrOf(v)
+			}))
+			r.Check("C17-5", sprintf("%s:return%d", FnKey(fn), i+1), c.InstrPos(ret), okDoc && d.Implies(nonNil), "the doc lookup may return something other than a non-nil Doc group: "+t.String())
 		}
-		r.Floor("C17-5", "Doc-returning branches of GetDocCommentOn", n, 4)
+		r.Floor("C17-5", "Doc-returning branches of GetDocCommentOn", n, 1)
 	}
 
 	r.Rule("C17-4", "marker identity: both InsertComment calls of an entry plant that entry's marker at positions taken from the interface's own declaration (ToAstNode(file, entry.intf)); the cut regexp and the replacement use the same entry's marker")
